@@ -45,6 +45,9 @@ func buildZip(entries []zipEntry, desc bool, deflate bool, rng *rand.Rand, first
 	for i, e := range entries {
 		method := zip.Store
 		body := bytes.Repeat([]byte("x"), e.csize)
+		if e.csize > 0 && rng.Intn(2) == 0 {
+			body[len(body)-1] = 'P' // a stored body may end in the first byte of the next signature
+		}
 		if i == 0 && firstBody != nil {
 			body = firstBody
 		}
